@@ -78,6 +78,26 @@ func genVac(r *rand.Rand) *VacParams {
 		mw.Scripts = [][]MWOp{sc}
 		mw.Skew = nil
 	}
+	folded := !deep && len(mw.Scripts) >= 2 && r.IntN(4) == 0
+	if folded {
+		// a delete folded into an entry that carries a later time: two writers insert the same key, one
+		// deletes it, the other - not having seen the delete - updates it later. After merging, the row is
+		// deleted as of the delete's time while its entry is as recent as the update; a cutoff between the two
+		// covers the delete.
+		base := int64(r.IntN(3))*int64(time.Second) + 300*int64(time.Millisecond)
+		at := func(j int) int64 { return base + int64(j)*100*int64(time.Millisecond) + int64(r.IntN(1000)) }
+		col := mw.Cols[0]
+		a, b := 0, 1
+		if r.IntN(2) == 0 {
+			a, b = 1, 0
+		}
+		mw.Scripts[a] = append(mw.Scripts[a],
+			MWOp{Op: "insert", ID: 901, Key: 77, WT: at(0), Set: map[string]int{col: 9010}},
+			MWOp{Op: "delete", ID: 903, Key: 77, WT: at(2)})
+		mw.Scripts[b] = append(mw.Scripts[b],
+			MWOp{Op: "insert", ID: 902, Key: 77, WT: at(1), Set: map[string]int{col: 9020}},
+			MWOp{Op: "update", ID: 904, Key: 77, WT: at(3), Set: map[string]int{col: 9040}})
+	}
 	p := &VacParams{MW: *mw, Late: r.IntN(2) == 0}
 	nv := 1 + r.IntN(3)
 	for i := 0; i < nv; i++ {
@@ -88,6 +108,9 @@ func genVac(r *rand.Rand) *VacParams {
 		} else if r.IntN(3) == 0 {
 			v.DelErr = 1 + r.IntN(6)
 			v.DelLost = r.IntN(2) == 0
+		}
+		if folded && i == 0 && r.IntN(2) == 0 {
+			v.Kind, v.Delta, v.Refresh = "deleted", []int64{1, 1, int64(time.Millisecond)}[r.IntN(3)], true
 		}
 		if deep {
 			v.Client = 0
